@@ -176,6 +176,7 @@ FIXED = [
     ("C16", "d1e4721", "`\"\".repeat(1e300)` and `\"\".repeat(2**53)` raised RangeError: only a negative or an infinite count is invalid, and copies of the empty string are empty (found by the author of seed C16-g)"),
     ("C01", "dd9da4c", "`function g(d){ if(d>40) return 0; for(var i=0;i<30;i++) eval(\"g(\"+(d+1)+\")\"); return 0 } g(0)` was never stopped by time_limit=0.5: nested interpreters count instructions from zero and none reached the polling period (found by the author of seed C01-h)"),
     ("C13", "1214c41", "`[[1][0]]` was [[1], [0]], `[[] + 1]` was [[], 1] and `[1, [2].length]` a syntax error: the iterative parser of nested array literals stored an inner array as an element as soon as its bracket closed"),
+    ("C01", "34b30a0", "after a host function called by the script had evaluated code on the same context, the outer evaluation had lost its interpreter (Context.eval cleared the pointer): later eval()/Function/RegExp started a clock of their own and the script ran 0.9 s at time_limit=0.5 (found by the author of seed C01-h)"),
     ("C20", "33cb6fa", "`'baa'.search(/a/y)` was 1, `'baa'.match(/a/y)` matched, `'aaba'.replace(/a/gy,'x')` was 'xxbx' (a sticky regex matches only where it starts); `var r=/a/g; r.lastIndex=1; 'aaaa'.match(r); r.lastIndex` stayed 1 and a failed global match or replace left lastIndex as it was (global match/replace start at 0 and leave 0); a sticky non-global match/replace did not advance or reset lastIndex"),
 ]
 
